@@ -101,7 +101,7 @@ func errClass(err error) string {
 		return "invalidCrc"
 	case errors.Is(err, rscp.ErrRscpDataLimitExceeded):
 		return "dataLimit"
-	case errors.Is(err, rscp.ErrRscpInvalidDataType):
+	case errors.Is(err, rscp.VerifErrInvalidDataType):
 		return "invalidDataType"
 	case errors.Is(err, io.EOF), errors.Is(err, io.ErrUnexpectedEOF):
 		return "eof"
